@@ -4,7 +4,8 @@
 //
 // A scenario is an ordered script of environment steps: calls of SendMessageElement (one per
 // message id), cancellations, receipts sent by the peer (for an id of a call or an unknown
-// one), and closing the output stream (later sends fail).  Mode "seq" takes every step at
+// one), and closing the output stream (later sends fail); "nounh" selects the handler's default
+// configuration (no Unhandled callback).  Mode "seq" takes every step at
 // quiescence; mode "explore" interleaves the goroutines at the yield points of package
 // receipts (after the handler's table lookup, before the caller's select) and at call starts,
 // depth-first with a pre-emption bound; script steps keep their order.
@@ -48,10 +49,12 @@ type Step struct {
 }
 
 type Scenario struct {
-	Steps   []Step `json:"steps"`
-	Mode    string `json:"mode"` // seq | explore
-	Choices []int  `json:"choices,omitempty"`
-	Fixed   bool   `json:"fixed,omitempty"`
+	Steps []Step `json:"steps"`
+	Mode  string `json:"mode"` // seq | explore
+	// NoUnh: the handler is the default &receipts.Handler{} (no Unhandled callback)
+	NoUnh   bool  `json:"nounh,omitempty"`
+	Choices []int `json:"choices,omitempty"`
+	Fixed   bool  `json:"fixed,omitempty"`
 }
 
 const hdrIn = `<stream:stream from="example.net" to="me@example.net" id="123" version="1.0" xmlns="jabber:client" xmlns:stream="http://etherx.jabber.org/streams">`
@@ -100,7 +103,12 @@ func runSchedule(sc Scenario, choices []int) result {
 		sched.Enabled = false
 		spawn = func(name string, f func()) { go f() }
 	}
+	// the configuration of the handler: with the optional Unhandled callback, or the default
+	// zero value without it
 	h := &receipts.Handler{Unhandled: func(id string) { lg.Add(vt.Ev{"ev": "unhandled", "id": id}) }}
+	if sc.NoUnh {
+		h = &receipts.Handler{}
+	}
 	m := mux.New(stanza.NSClient, receipts.Handle(h))
 	if explore {
 		setRcptHook(func(point, id string) {
@@ -450,7 +458,7 @@ func main() {
 			if choices == nil {
 				choices = []int{}
 			}
-			t := tw.Write(vt.Ev{}, last.evs)
+			t := tw.Write(vt.Ev{"unh": !sc.NoUnh}, last.evs)
 			tw.Meta(vt.Ev{"scenario": sc, "choices": choices, "note": last.note})
 			if len(samples) < 2 && len(last.evs) > 6 {
 				samples = append(samples, vt.Ev{"t": t, "scenario": sc, "choices": choices, "events": last.evs})
